@@ -572,12 +572,14 @@ def to_coq(rule_fn, names=None):
 
 
 def count_stmts(stmts):
-    n = {"def_index": 0, "def_restrict": 0, "iter": 0, "iter_chain": 0, "guard": 0, "push": 0}
+    n = {"def_index": 0, "def_index_diag": 0, "def_restrict": 0, "iter": 0, "iter_chain": 0, "guard": 0, "guard_chain": 0, "push": 0}
 
     def walk(ss):
         for st in ss:
             if st[0] == "def":
                 n["def_index" if st[3][0] == "index" else "def_restrict"] += 1
+                if st[3][0] == "index" and "_eqs_" in st[3][1]:
+                    n["def_index_diag"] += 1
             elif st[0] == "iter":
                 n["iter"] += 1
                 if len(st[1]) > 1:
@@ -585,6 +587,8 @@ def count_stmts(stmts):
                 walk(st[4])
             elif st[0] == "guard":
                 n["guard"] += 1
+                if len(st[1]) > 1:
+                    n["guard_chain"] += 1
                 walk(st[2])
             else:
                 n["push"] += 1
